@@ -30,6 +30,22 @@ def pool(ctx):
     return nums, texts, bools, blanks
 
 
+def float_exact_text(t):
+    """Sampled text stays in the float-exact domain: if it reads as a number,
+    the decimal it spells must be exactly a double (DESIGN 3.2) of moderate size."""
+    import fractions
+    try:
+        x = float(t)
+    except ValueError:
+        return True
+    if x != x or x in (float('inf'), float('-inf')) or abs(x) > 2 ** 26:
+        return False
+    if NUMERIC_TEXT.match(t):
+        return fractions.Fraction(t.strip()) == fractions.Fraction(x) and \
+            (fractions.Fraction(x).denominator <= 4096)
+    return True
+
+
 def pow_ok(l, r):
     def mag(v):
         try:
@@ -120,7 +136,9 @@ def run(ctx):
         elif k < 0.7:
             values.append(ctx.rng.randrange(-2 ** 20, 2 ** 20) / 2 ** ctx.rng.randrange(1, 12))
         else:
-            values.append("".join(ctx.rng.choice('abAB 12.-e') for _ in range(ctx.rng.randrange(1, 6))))
+            t = "".join(ctx.rng.choice('abAB 12.-e') for _ in range(ctx.rng.randrange(1, 6)))
+            if float_exact_text(t):
+                values.append(t)
     ctx.extra['rule'] = (
         "every (left, operator, right) over a pool of numbers (ints, integral and dyadic floats), text "
         "(empty, case variants, numeric-looking, padded, exponent, Latin-1/CJK), logicals, blank/None, "
